@@ -377,6 +377,15 @@ Theorem c05_hex_record_round_trip : forall b64 recs d,
 Proof. exact checksum_of_hex_record. Qed.
 Print Assumptions c05_hex_record_round_trip.
 
+(* the source has three copies of checksumFromHeader (the one checkSums verifies with, the
+   streaming installer's, the lazy installer's); goextract reads key and prefix of each: they
+   agree, so the one model function stands for all three (a copy that drifts breaks this) *)
+Theorem c05_checksum_sites_agree :
+  List.length checksum_sites = 3%nat /\
+  forall s k p, In (s, (k, p)) checksum_sites -> k = pax_checksum_key /\ p = checksum_b64_prefix.
+Proof. exact checksum_sites_agree. Qed.
+Print Assumptions c05_checksum_sites_agree.
+
 Example c05_checksum_records :
   checksum_from_header wit_b64 [("SCHILY.xattr.user.x", "1")] = SumNone /\
   checksum_from_header wit_b64 [("APK-TOOLS.checksum.SHA1", "0aFf")] = SumSome [10; 255]%N /\
